@@ -1233,8 +1233,74 @@ var hostileStrings = []string{
 	".", "$", "\uff0e", "\uff04", "a\uff0eb", "\uff04set", "%2E", "%24", "~0", "~1", "\\u002e", "_$", "..", "$$", "\u2024", "\ufe52",
 }
 
+// sniffable: strings whose SHAPE a storage layer or a helpful decoder might
+// recognise and convert (round M, class M3), and the domain's own vocabulary.
+// They are strings and must stay the same strings, byte for byte.
+var sniffable = []string{
+	// 24 hex digits (what an ObjectID prints as) in lower, UPPER and Mixed case, and near misses
+	"507f1f77bcf86cd799439011", "507F1F77BCF86CD799439011", "507f1F77bcF86cd799439011", "000000000000000000000000", "ABCDEFABCDEFABCDEFABCDEF",
+	"507f1f77bcf86cd79943901", "507f1f77bcf86cd7994390111", "507f1f77bcf86cd79943901g", "ObjectID(\"507f1f77bcf86cd799439011\")",
+	// 12 bytes (the raw size of an ObjectID), 16 bytes (a UUID / Decimal128)
+	"abcdefghijkl", "\x01\x02\x03\x04\x05\x06\x07\x08\x09\x0a\x0b\x0c", "éééééé", "0123456789abcdef",
+	// UUIDs
+	"123e4567-e89b-12d3-a456-426614174000", "123E4567-E89B-12D3-A456-426614174000", "{123e4567-e89b-12d3-a456-426614174000}", "urn:uuid:123e4567-e89b-12d3-a456-426614174000", "123e4567e89b12d3a456426614174000",
+	// numeric strings
+	"7", "007", "-0", "+1", "1e3", "1E3", "0x10", "1.0", "1.", ".5", "1_000", "9007199254740993", "1e400", " 7", "7 ", "٣",
+	// literals
+	"null", "NULL", "true", "false", "True", "NaN", "nan", "Infinity", "-Inf", "undefined", "nil",
+	// dates and times
+	"2021-03-04", "2021-03-04T05:06:07Z", "2021-03-04T05:06:07.123456789+01:00", "2021-03-04 05:06:07", "20210304T050607Z", "1614834367", "1614834367000", "P1DT2H", "05:06:07",
+	// base64-looking, hex-looking
+	"aGVsbG8=", "aGVsbG8", "AAAA", "SGVsbG8gV29ybGQh", "-_-_", "deadbeef", "DEADBEEF", "0xdeadbeef",
+	// extended-JSON style names
+	"$oid", "$date", "$numberLong", "$numberDouble", "$binary", "$regex", "$ref", "$id", "$db", "_id", "__proto__",
+	// strings that are JSON documents
+	"{}", "[]", "[1]", "\"x\"", "{\"$oid\":\"507f1f77bcf86cd799439011\"}", "{\"type\":\"Point\",\"coordinates\":[1,2]}", "1 2", "[1,2]",
+	// the domain's vocabulary
+	"name", "extent", "version", "keys", "values", "tags", "layer", "Point", "FeatureCollection", "GeometryCollection", "crs", "EPSG:4326",
+}
+
+const hexLower, hexUpper = "0123456789abcdef", "0123456789ABCDEF"
+
+// genSniffable draws a fresh string of a sniffable shape.
+func genSniffable(t *rapid.T, label string) string {
+	hex := func(n int, mode int) string {
+		b := make([]byte, n)
+		for i := range b {
+			d := rapid.IntRange(0, 15).Draw(t, label+"hx")
+			switch {
+			case mode == 1, mode == 2 && i%3 == 1:
+				b[i] = hexUpper[d]
+			default:
+				b[i] = hexLower[d]
+			}
+		}
+		return string(b)
+	}
+	switch rapid.IntRange(0, 5).Draw(t, label+"shape") {
+	case 0, 1:
+		return hex(24, rapid.IntRange(0, 2).Draw(t, label+"case"))
+	case 2:
+		m := rapid.IntRange(0, 1).Draw(t, label+"case")
+		return hex(8, m) + "-" + hex(4, m) + "-" + hex(4, m) + "-" + hex(4, m) + "-" + hex(12, m)
+	case 3:
+		return fmt.Sprintf("%04d-%02d-%02dT%02d:%02d:%02dZ", rapid.IntRange(0, 9999).Draw(t, label+"y"), rapid.IntRange(1, 12).Draw(t, label+"mo"), rapid.IntRange(1, 28).Draw(t, label+"d"), rapid.IntRange(0, 23).Draw(t, label+"h"), rapid.IntRange(0, 59).Draw(t, label+"mi"), rapid.IntRange(0, 59).Draw(t, label+"s"))
+	case 4:
+		return strconv.FormatInt(genInt(t), 10)
+	}
+	return strconv.FormatFloat(genFloat(t), 'g', -1, 64)
+}
+
 func genString(t *rapid.T, label string, key bool) string {
 	var s string
+	switch sn := rapid.IntRange(0, 19).Draw(t, label+"sn"); sn {
+	case 0:
+		stats.Class("string:sniffable shape (table)")
+		return rapid.SampledFrom(sniffable).Draw(t, label+"st")
+	case 1:
+		stats.Class("string:sniffable shape (generated)")
+		return genSniffable(t, label)
+	}
 	switch rapid.IntRange(0, 3).Draw(t, label+"k") {
 	case 0:
 		s = rapid.SampledFrom(hostileStrings).Draw(t, label+"h")
